@@ -83,6 +83,8 @@ func (ex *Exec) logEnv(st *State, reach, name string, args []Val) string {
 	ex.setComp(st, "envlog|arg", sArr(sInt, sArr(sInt, sInt)), mkStore(argC, n, row))
 	st.heap["envlog|len"] = ex.sc.define("envlen", sInt, mkAdd(n, "1"))
 	ex.noteWrite("envlog|len", "*")
+	ex.noteWrite("envlog|kind", "*")
+	ex.noteWrite("envlog|arg", "*")
 	return n
 }
 
@@ -357,7 +359,21 @@ func (ex *Exec) allocLimit() string {
 // assumeSorted is refined by the reassembler contracts (sortedness of
 // sort.Sort's result under a strict weak order); see lemmas.
 func (ex *Exec) assumeSorted(st *State, reach string, v Val, nw string) {
-	if ex.sortPost != nil {
-		ex.sortPost(ex, st, reach, v, nw)
+	// assumed contract of sort.Sort: pred sortPost_<type>(s, w), instantiated at
+	// the logical variable w of the unit's contract (if it has one)
+	n, ok := types.Unalias(v.T).(*types.Named)
+	if !ok || ex.topFrame == nil {
+		return
 	}
+	pd := ex.eng.specs.Preds["sortPost_"+n.Obj().Name()]
+	w, hasW := ex.topFrame.logical["w"]
+	if pd == nil || !hasW || len(pd.Params) != 2 {
+		return
+	}
+	env := ex.newSpecEnv(ex.topFrame.fn, st, nil)
+	env.vars[pd.Params[0].Name] = v
+	env.vars[pd.Params[1].Name] = w
+	g := env.evalBool(pd.Body, "sortPost_"+n.Obj().Name())
+	ex.sc.assert(mkImp(reach, g))
+	ex.assumedUsed["sort.Sort leaves no inversion w.r.t. Less when all elements lie in one window (pred sortPost_"+n.Obj().Name()+")"] = true
 }
